@@ -60,6 +60,14 @@ class Info(object):
             for i in c.get("children", []):
                 self.comp_parents.setdefault(cn[i], []).append(c.get("id") or c["name"])
 
+    def reversed_view(self):
+        """the same facts with every link read in the opposite direction (the inner run of backward_simulate)"""
+        import copy
+
+        r = copy.copy(self)
+        r.preds, r.succs = self.succs, self.preds
+        return r
+
     # ---- task facts
     def prefinished(self, tn):
         return (self.tasks[tn].get("progress") or 0.0) >= 1.0 - EPS
